@@ -7,6 +7,7 @@ package main
 
 import (
 	"fmt"
+	"strings"
 )
 
 type thread struct {
@@ -86,6 +87,10 @@ func (ts *threadSys) runnable(except *thread) []*thread {
 
 func (it *Interp) pick(cands []*thread, what string) *thread {
 	if len(cands) == 1 {
+		return cands[0]
+	}
+	if it.job.CanonicalBlock && !strings.HasPrefix(what, "preempt") {
+		// canonical non-preemptive schedule: the runnable thread created first continues
 		return cands[0]
 	}
 	sel := it.fresh("sched", SBV(8))
